@@ -19,17 +19,23 @@ pub struct C02Case {
     pub listing: Option<u64>,
     /// deliver packs late (bias: true = move every pack after the blocks that need it)
     pub packs_last: bool,
+    /// the receiving replica first submits the documents the source replicas submitted last and unstages
+    /// them, so every object of the final state sits in its caches (not in its storage) before the
+    /// first block arrives
+    #[serde(default)]
+    pub warm: bool,
 }
 
 pub fn strategy(thorough: bool) -> BoxedStrategy<C02Case> {
     let mix = Mix { update: 9, commit: 7, meldrefresh: 6, filecopy: 1, resolve: 2, timetravel: 1, snapshot: 1, rich: true, rich_info: true, ..Mix::default() };
     let len = if thorough { 60 } else { 30 };
-    (2u8..=3, gen::history(&mix, len), any::<u64>(), prop::option::of(any::<u64>()), prop::bool::weighted(0.3))
-        .prop_map(|(n, ops, perm, listing, packs_last)| C02Case {
+    (2u8..=3, gen::history(&mix, len), any::<u64>(), prop::option::of(any::<u64>()), prop::bool::weighted(0.3), prop::bool::weighted(0.3))
+        .prop_map(|(n, ops, perm, listing, packs_last, warm)| C02Case {
             hist: Case { n, perms: vec![None; 3], ops, fin: Some(FinPlan { commit: vec![true; 3], deliveries: vec![], final_mode: vec![0; 3] }) },
             perm,
             listing,
             packs_last,
+            warm,
         })
         .boxed()
 }
@@ -93,6 +99,7 @@ pub fn run(case: &C02Case, thorough: bool) -> CaseRes {
         return CaseRes { counters: w.cnt, nontrivial: false, result: Err(f), log, steps };
     }
     let src = w.reps[0].store.snap();
+    let warm_docs: Vec<serde_json::Value> = if case.warm { w.reps.iter().filter_map(|r| r.last_doc.clone()).collect() } else { vec![] };
     let full_obs = match obs(&w.reps[0].m) {
         Ok(o) => o,
         Err(f) => return CaseRes { counters: w.cnt, nontrivial: false, result: Err(f), log, steps },
@@ -127,6 +134,11 @@ pub fn run(case: &C02Case, thorough: bool) -> CaseRes {
     let mut res: R<()> = Ok(());
     let run_order = |order: &[String], cnt: &mut Counters, log: &mut Vec<String>| -> R<()> {
         let mut w2 = World::new(1, &[case.listing], &["C02"])?;
+        for d in &warm_docs {
+            w2.submit(0, d.clone(), None)?;
+            w2.op_unstage(0)?;
+            *cnt.entry("c02_warm_receiver_submissions").or_insert(0) += 1;
+        }
         let r = deliver(&mut w2, order, &src, &full_obs);
         for (k, v) in &w2.cnt {
             *cnt.entry(k).or_insert(0) += v;
